@@ -97,8 +97,26 @@ func genRequests(rng *cq.Rng, n int) []httpReq {
 				own = append(own, `{"KeyDigest":"`+b64n(l, rng)+`"}`, `{"KeyDigest":"`+b64n(l, rng)+`","Version":`+fmt.Sprint(rng.Intn(5))+`}`)
 			}
 			own = append(own, `{"KeyDigest":null}`, `{"KeyDigest":7}`, `{"KeyDigest":"`+b64n(32, rng)+`","Version":18446744073709551615}`)
+		}
+		// an existing key (the first follow-up event) at versions around the number of events in the log, resolved when sent
+		switch path {
+		case "/proofs/membership":
+			k := base64.StdEncoding.EncodeToString([]byte("follow-1"))
+			for _, v := range []string{"@N@", "@N-1@", "@N+1@", "0"} {
+				own = append(own, `{"Key":"`+k+`","Version":`+v+`}`)
+			}
+		case "/proofs/digest-membership":
+			k := base64.StdEncoding.EncodeToString(hashing.NewSha256Hasher().Do([]byte("follow-1")))
+			for _, v := range []string{"@N@", "@N-1@", "@N+1@", "0"} {
+				own = append(own, `{"KeyDigest":"`+k+`","Version":`+v+`}`)
+			}
+		}
+		switch path {
 		case "/proofs/incremental":
-			own = []string{`{"Start":0,"End":0}`, `{"Start":0,"End":1}`, `{"Start":5,"End":2}`, `{"Start":0,"End":18446744073709551615}`, `{"Start":18446744073709551615,"End":18446744073709551615}`, `{"Start":-1,"End":1}`, `{"Start":"a"}`, `{"Start":1e3,"End":1e4}`, `{"End":3}`}
+			own = append(own, `{"Start":0,"End":@N-1@}`, `{"Start":0,"End":@N@}`, `{"Start":@N-1@,"End":@N-1@}`, `{"Start":@N@,"End":@N@}`)
+			fallthrough
+		case "/proofs/incremental-static":
+			own = append(own, []string{`{"Start":0,"End":0}`, `{"Start":0,"End":1}`, `{"Start":5,"End":2}`, `{"Start":0,"End":18446744073709551615}`, `{"Start":18446744073709551615,"End":18446744073709551615}`, `{"Start":-1,"End":1}`, `{"Start":"a"}`, `{"Start":1e3,"End":1e4}`, `{"End":3}`}...)
 		}
 		return append(own, generic...)
 	}
@@ -213,6 +231,10 @@ func httpCmd(out *cq.Out, seed uint64, tier string) {
 		var err error
 		if !withTimeout(45*time.Second, func() {
 			before = n.VBalloonVersion()
+			if strings.Contains(r.body, "@N") {
+				r.body = strings.NewReplacer("@N-1@", fmt.Sprint(before-1), "@N+1@", fmt.Sprint(before+1), "@N@", fmt.Sprint(before)).Replace(r.body)
+				desc["body"] = r.body
+			}
 			st, _, err = do(r)
 			after = n.VBalloonVersion()
 		}) {
